@@ -31,6 +31,8 @@ class Executor(ExprMixin, StmtMixin, CallMixin, StrMixin, TermMixin):
         self.inlined_fns = set()
         self.at_hits = set()
         self.loops_bound = set()
+        self.covered = set()
+        self.last_abs_result = {}
         self.global_defs = getattr(spec, "global_defs", {})
         self.spec_funcs = dict(BASE_SPEC_FUNCS)
         self.spec_funcs.update(getattr(spec, "spec_funcs", {}))
@@ -134,7 +136,21 @@ def _isfinite(ex, args, node):
     return vbool(XR().is_Fin(to_float(args[0]).t))
 
 
-BASE_SPEC_FUNCS = {"popcount": _popcount, "isfinite": _isfinite}
+def _lastcall(ex, args, node):
+    name = z3.simplify(args[0].t).as_string()
+    v = ex.last_abs_result.get(name)
+    if v is None:
+        # no call on this path: an unconstrained value (contracts guard lastcall by the call condition)
+        return ex.ctx.fresh("nocall_" + name, ex.ty(ex.abs_call_result[name]))
+    return v
+
+
+def _called(ex, args, node):
+    name = z3.simplify(args[0].t).as_string()
+    return vbool(name in ex.last_abs_result)
+
+
+BASE_SPEC_FUNCS = {"popcount": _popcount, "isfinite": _isfinite, "lastcall": _lastcall, "called": _called}
 
 
 class FnResult(object):
@@ -154,6 +170,7 @@ class FnResult(object):
         self.digest = None
         self.seconds = 0.0
         self.notes = set()
+        self.unreached = []
 
 
 def locate(spec_fn):
@@ -183,9 +200,14 @@ def explore(spec, fs=None, lemma=None):
     t0 = time.time()
     try:
         if fs is not None:
-            mi, fdef = locate(fs)
-            res.file, res.line, res.digest = os.path.relpath(mi.path, extract.REPO), fdef.lineno, extract.fn_digest(fdef)
-            modname, clsname, fname = mi.name, fs.clsname, fs.fname
+            if getattr(fs, "src", None) is not None:
+                fdef = fs.src
+                res.file, res.line, res.digest = "contracts/%s (ghost lemma)" % spec.pid, 0, extract.fn_digest(fdef)
+                modname, clsname, fname = fs.module, fs.clsname, fs.fname
+            else:
+                mi, fdef = locate(fs)
+                res.file, res.line, res.digest = os.path.relpath(mi.path, extract.REPO), fdef.lineno, extract.fn_digest(fdef)
+                modname, clsname, fname = mi.name, fs.clsname, fs.fname
         else:
             fdef = lemma.src
             modname, clsname, fname = lemma.module_hint, None, lemma.name
@@ -194,6 +216,7 @@ def explore(spec, fs=None, lemma=None):
         stack = [[]]
         loops_bound = set()
         at_hits = set()
+        covered = set()
         while stack:
             trace = stack.pop()
             res.paths += 1
@@ -213,6 +236,7 @@ def explore(spec, fs=None, lemma=None):
             res.notes |= ctx.notes
             loops_bound |= ex.loops_bound
             at_hits |= ex.at_hits
+            covered |= ex.covered
             for ob in ctx.obligations:
                 if ob.pc is None:
                     k = ob.name + "|trivial"
@@ -229,6 +253,20 @@ def explore(spec, fs=None, lemma=None):
             for snippet, _ in fs.at:
                 if snippet not in at_hits:
                     raise StaleContract("ghost assertion anchor %r matches no statement of %s" % (snippet, fs.path))
+        # vacuity guard: every statement of the function must be reached on some feasible path
+        # under the contract's precondition (a dead branch means the contract silently excludes
+        # behaviour); exceptions are listed explicitly in the contract (dead_ok)
+        body, _ = extract.strip_docstring(fdef.body)
+        dead_ok = getattr(fs, "dead_ok", []) if fs is not None else []
+        for st in body:
+            for n in ast.walk(st):
+                if isinstance(n, ast.stmt) and id(n) not in covered and not isinstance(n, (ast.FunctionDef, ast.ClassDef)):
+                    text = ast.unparse(n).splitlines()[0][:80]
+                    if isinstance(n, (ast.Pass,)) or any(s in text for s in dead_ok):
+                        continue
+                    if isinstance(n, ast.Expr) and isinstance(n.value, ast.Constant):
+                        continue
+                    res.unreached.append("line %d: %s" % (getattr(n, "lineno", 0), text))
         res.obligations = list(seen.values())
     except StaleContract as e:
         res.status, res.reason = "undecided", "stale-contract: %s" % e
@@ -274,6 +312,8 @@ def run_path(ex, ctx, spec, fs, lemma, fdef, modname, clsname, fname, res):
         if fs.decreases:
             ex.entry_measure = ex.spec_eval(fs.decreases).t
             ex.top_spec = fs
+        for u in fs.use:
+            ctx.assume(ex.lemma_fact(u))
     fr.entry_heap = ctx.snapshot()
     # remember the input heap for replay
     body, _ = extract.strip_docstring(fdef.body)
@@ -318,13 +358,15 @@ def run_path(ex, ctx, spec, fs, lemma, fdef, modname, clsname, fname, res):
         v = ex.spec_eval(e)
         selfv = fr.entry_locals["self"]
         ctx.write_field(selfv.t, ex.field_owner(clsname, g), g, ex.field_type(clsname, g), v)
+    for u in fs.use:
+        ctx.assume(ex.lemma_fact(u))
     for i, e in enumerate(fs.ensures):
         ex.spec_eval_oblige(e, "post[%d]" % i, "post")
 
 
 # ---------------------------------------------------------------- discharge
-Z3_TIMEOUT_MS = int(os.environ.get("PYVC_Z3_TIMEOUT_MS", "20000"))
-CVC5_TIMEOUT_MS = int(os.environ.get("PYVC_CVC5_TIMEOUT_MS", "30000"))
+Z3_TIMEOUT_MS = int(os.environ.get("PYVC_Z3_TIMEOUT_MS", "10000"))
+CVC5_TIMEOUT_MS = int(os.environ.get("PYVC_CVC5_TIMEOUT_MS", "15000"))
 
 
 def model_to_dict(m, inputs, ctx_extra=None):
